@@ -95,8 +95,8 @@ class Sequence(AbstractSequence):
 
         if self.parent is not None and self.parent.location is not None:
             if isinstance(key, slice):
-                rel_start = key.start
-                rel_end = key.stop
+                rel_start, rel_end, _ = key.indices(len(self))
+                rel_end = max(rel_start, rel_end)
             else:
                 rel_start = key
                 rel_end = key + 1
